@@ -19,14 +19,14 @@ namespace c15 {
     struct bronson_walk {
         bool order = true, parents = true, heights = true, balance = true, routing = true, versions = true;
         size_t nodes = 0, valued = 0, routing_nodes = 0;
-        std::string detail;
+        std::string detail, shape;
     };
 
     // returns the real height of the subtree
     template <class Node, class ValOf>
     int bronson_walk_node( Node* n, Node* parent, bool has_lo, long lo, bool has_hi, long hi, bronson_walk& w, std::string& iter, ValOf valof, int depth )
     {
-        if ( !n ) return 0;
+        if ( !n ) { w.shape += "."; return 0; }
         if ( depth > 4096 ) { w.order = false; return 0; }
         ++w.nodes;
         long k = (long) n->m_key;
@@ -37,7 +37,9 @@ namespace c15 {
         if ( ver & Node::version_flags ) w.versions = false;
         Node* l = n->m_pLeft.load( atomics::memory_order_acquire );
         Node* r = n->m_pRight.load( atomics::memory_order_acquire );
+        w.shape += "(";
         int hl = bronson_walk_node( l, n, has_lo, lo, true, k, w, iter, valof, depth + 1 );
+        w.shape += " " + std::to_string( k ) + ( n->m_pValue.load( atomics::memory_order_acquire ) ? "v" : "r" ) + std::to_string( n->m_nHeight.load( atomics::memory_order_acquire )) + " ";
         auto pv = n->m_pValue.load( atomics::memory_order_acquire );
         if ( pv ) { ++w.valued; add_kv( iter, k, valof( pv )); }
         else {
@@ -45,6 +47,7 @@ namespace c15 {
             if ( !l || !r ) { w.routing = false; w.detail += "routing" + std::to_string( k ) + ","; }
         }
         int hr = bronson_walk_node( r, n, true, k, has_hi, hi, w, iter, valof, depth + 1 );
+        w.shape += ")";
         int h = 1 + ( hl > hr ? hl : hr );
         int stored = n->m_nHeight.load( atomics::memory_order_acquire );
         if ( stored != h ) { w.heights = false; w.detail += "h" + std::to_string( k ) + "=" + std::to_string( stored ) + "/" + std::to_string( h ) + ","; }
@@ -58,6 +61,7 @@ namespace c15 {
         bronson_walk w;
         Node* root = rootHolder->m_pRight.load( atomics::memory_order_acquire );
         int h = bronson_walk_node( root, rootHolder, false, 0, false, 0, w, mo.iter, valof, 0 );
+        mo.shape = w.shape;
         add_struct( mo, "bronson_bst_order", w.order );
         add_struct( mo, "bronson_parent_links", w.parents );
         add_struct( mo, "bronson_stored_heights_exact", w.heights, w.detail );
